@@ -367,6 +367,14 @@ def gen_case(rng, tier):
                     pair[1] = rng.choice([m for m in sets_m[0] if m['id'] != pair[0]])['id']    # an asymmetric pair
                 osy['disallowed_pairs'] = [pair]
                 scm['disallowed'] = [pair]
+            if vm.get('specific') and rng.random() < 0.5:
+                # the ids of an explicitly listed combination named by the disallowed list as well: the list is about
+                # combinations made from the operand sets, the explicit combination keeps its own encoding
+                full = [sp for sp in vm['specific'] if len(sp['ops']) == count and all(o['t'] != 'empty' for o in sp['ops'])]
+                if full:
+                    pair = [o['id'] for o in rng.choice(full)['ops']]
+                    osy.setdefault('disallowed_pairs', []).append(pair)
+                    scm.setdefault('disallowed', []).append(pair)
             for flag, key in (('revArgs', 'reverse_argument_order'), ('revCodes', 'reverse_bytecode_order')):
                 if rng.random() < 0.2:
                     osy[key] = True
